@@ -342,6 +342,10 @@ def conc_cases(quick):
             "three": [[("text", big, None)], [("text", small, None)], [("binary", big, None), ("ping", 3, None)]],
             "override": [[("text", big, 15), ("text", small, None)], [("text", small, 9), ("binary", big, None)]],
             "with-close": [[("binary", big, None), ("close", 3, None)], [("text", small, None), ("text", big, None)]],
+            # a large shared-context send in flight, an override send waiting for the lock, another large shared-context
+            # send queued behind it (same kind of content, so that it can refer back into the first one's window)
+            "three-override": [[("text", big, None)], [("text", small, 15)], [("text", big + 1, None)]],
+            "three-override-big": [[("text", big, None)], [("text", big + 2, 9)], [("text", big + 1, None), ("text", small, None)]],
         }
         for nm, p in progs.items():
             out.append({"name": f"{nm}/{tag}", "cfg": cfg, "programs": p, "faults": ["cancel"], "cuts": "none"})
